@@ -6,7 +6,7 @@ Require Import ExtrOcamlBasic.
 Require Import GM.model.Base GM.model.Util GM.model.UtilI GM.model.HtmlDecode.
 Require Import GM.model.AstHeap GM.model.AstSpec.
 Require Import GM.model.Reader GM.model.ReaderI.
-Require Import GM.model.Prio GM.model.Bufio GM.model.Ids GM.model.HtmlWriter GM.model.Html GM.model.HtmlI GM.model.HtmlSpec.
+Require Import GM.model.Prio GM.model.Bufio GM.model.Ids GM.model.HtmlWriter GM.model.Html GM.model.HtmlI GM.model.HtmlSpec GM.model.TableX.
 Extraction Language OCaml.
 Extraction "model.ml"
   IsPunct IsSpace EscapeHTML URLEscape UnescapePunctuations ResolveNumericReferences ResolveEntityNames
@@ -23,4 +23,5 @@ Extraction "model.ml"
   new_dest new_bw bw_step bw_flush
   IdsGenerate put
   WriterWrite RawWrite SecureWrite RenderAttributes IsDangerousURL UrlValue browser_dangerous
-  RenderHTML wf_tree text_ok.
+  RenderHTML wf_tree text_ok
+  TableTransform ParseDelimiter.
